@@ -1,0 +1,42 @@
+//go:build verif
+
+package console
+
+// Contracts for the deductive checker in /verif (comment-only file).
+
+// C11: in a compare run every command sent to the device is read-only.
+// isCompareRun is assigned once, at entry of device.ApproveOrCompare.
+//vc:ghost var isCompareRun bool
+// The login password obtained from (*program.Config).GetUserPass.
+//vc:ghost var loginPass string
+// C06: output of the last GetCmdOutput / IssueCmd (what the device reported).
+//vc:ghost var lastOutput string
+
+// Commands that do not change the device (session settings, show commands,
+// login dialogue).  "configure terminal" / "terminal width 511" / "end" is the
+// ASA terminal width session setting the property allows.
+//vc:spec func readOnlyCmd(c string) bool =
+//vc:   c == "" || c == "yes" || c == "enable" || c == "exit" ||
+//vc:   c == "sh pager" || c == "terminal pager 0" || c == "sh term" ||
+//vc:   c == "configure terminal" || c == "terminal width 511" || c == "end" ||
+//vc:   c == "sh ver" || c == "show hostname" || c == "write term" ||
+//vc:   c == "term len 0" || c == "term width 512" || c == "sh run" ||
+//vc:   c == "PS1=router#" || c == "uname -r" || c == "uname -m" || c == "hostname -s" ||
+//vc:   c == "iptables-save" || c == "ip route show"
+//vc:spec func grepIssue(re string) string = "grep '" + re + "' /etc/issue"
+//vc:spec func sendAllowed(cmp bool, pass string, c string) bool =
+//vc:   !cmp || readOnlyCmd(c) || c == pass || (exists re string :: c == grepIssue(re))
+
+//vc:only[C11] (*github.com/tailscale/goexpect.GExpect).Send in (*Conn).Send, (*Conn).Close
+
+//vc:func (*Conn).Send
+//vc:  requires[C11] sendAllowed(isCompareRun, loginPass, cmd)
+
+//vc:func (*Conn).IssueCmd
+//vc:  requires[C11] sendAllowed(isCompareRun, loginPass, cmd)
+
+//vc:func (*Conn).SendCmd
+//vc:  requires[C11] sendAllowed(isCompareRun, loginPass, cmd)
+
+//vc:func (*Conn).GetCmdOutput
+//vc:  requires[C11] sendAllowed(isCompareRun, loginPass, cmd)
